@@ -40,6 +40,10 @@ def run(repo, rep):
     # ---------------------------------------------------------------- C13.a
     n = W.visit_pairing(repo, rep, 'C13.a')
     rep.floor('C13.a', n, 6)
+    # the wrapper, the context class and the entry point interpreted on small object graphs (cycles, chords, shared values,
+    # trailing-commented references) against the specification: marker exactly for a value being printed higher up on the path
+    from . import wrapper_model
+    rep.floor('C13.a:model', wrapper_model.run(repo, rep, 'C13'), 12)
 
     # ---------------------------------------------------------------- C13.b
     n = 0
